@@ -6,7 +6,7 @@ from ..hx import assume, require, reach, Skip
 MANIFEST = dict(
     engines="AB",
     technique="symbolic execution (CrossHair+z3) of Deb822.__setitem__/validate_input -> dump -> iter_paragraphs with a symbolic value whose line-break positions are fixed per partition; regex-to-SMT lemmas (z3 regex, unbounded line length) tying what the validator lets through to the parser's regexes",
-    text="Engine A: for every value of up to 3 (thorough: 5) characters over printable ASCII, tab, CR and newline (newline positions fixed per partition, every other character symbolic), assigned to an existing or a new field of a three-field paragraph: either ValueError with the paragraph unchanged, or the dump re-reads (non-strict whitespace mode, and default mode when no continuation line is blank) as exactly one paragraph with exactly the same field names and untouched neighbours; must-reject values are rejected and plainly valid values are accepted. Engine B: for continuation lines of ANY length that the validator accepts, the parser's _single/_multi/_gpgre/blank-line regexes cannot match them, and 'Key: first-line' always parses as that key.",
+    text="Engine A: for every value of up to 3 (thorough: 5) characters over printable ASCII, tab, CR and newline (newline positions fixed per partition, every other character symbolic), assigned to an existing or a new field of a three-field paragraph: either ValueError with the paragraph unchanged, or the dump re-reads (non-strict whitespace mode, and default mode when no continuation line is blank) as exactly one paragraph with exactly the same field names and untouched neighbours; must-reject values are rejected and plainly valid values are accepted. Engine B: for continuation lines of ANY length that the validator accepts, the parser's _single/_multi/_gpgre/blank-line regexes cannot match them, and 'Key: first-line' always parses as that key. The paragraph is obtained in ten ways (empty constructor, empty str/list, comments only, dict, parsed, copy, iter_paragraphs, Dsc).",
     note="Trusted: CrossHair's str/bytes/regex models (repaired; counterexamples replayed on CPython), z3 regex theory, the re->z3 translation. Assumed away (as the property states): characters Python treats as whitespace/line boundaries that the format does not define (VT, FF, FS-US, NEL, NBSP, LS, PS ...); keys are valid field names.",
 )
 
